@@ -41,10 +41,12 @@ def main():
             print("PATCH DOES NOT APPLY to current /repo:\n" + out)
             return 1
         files = re.findall(r"^\+\+\+ b/(\S+)", open(os.path.join(src, "patch.diff")).read(), re.M)
-        pkgs = sorted(set("./" + (os.path.dirname(f) + "/" if os.path.dirname(f) else "") for f in files))
+        gofiles = [f for f in files if f.endswith(".go")] or files
+        pkgs = sorted(set("./" + (os.path.dirname(f) + "/" if os.path.dirname(f) else "") for f in gofiles))
         dst = os.path.join(repo, demo.get("copy_to", ".").strip("/") or ".")
         run = demo["run"]
         run = re.sub(r"^cd \S+ *&& *", "", run)
+        run = re.sub(r"^cp \S+ \S+ *&& *", "", run)  # we copy the demo ourselves
         # 3. clean tree: demo passes
         shutil.copy(demofile, dst)
         rc_clean, out_clean = sh(run, repo)
